@@ -540,6 +540,44 @@ func runMetamorphic(t *testing.T, st *Stats, cfg coreCfg, base int64) {
 	if Tier() == "thorough" {
 		pairs = 150
 	}
+	// the directed histories of the corpus that contain maintenance jobs, with and without them
+	corpus, _ := filepath.Glob(filepath.Join(corpusDir(), "*.json"))
+	for _, cf := range corpus {
+		b, err := os.ReadFile(cf)
+		if err != nil {
+			continue
+		}
+		var rf replayFile
+		if json.Unmarshal(b, &rf) != nil {
+			continue
+		}
+		var stripped []Op
+		for _, op := range rf.Ops {
+			if !strings.HasPrefix(op.K, "prune_") {
+				stripped = append(stripped, op)
+			}
+		}
+		if len(stripped) == len(rf.Ops) {
+			continue
+		}
+		with := RunHistory(t, rf.Seed, nil, rf.Ops, 0, false)
+		without := RunHistory(t, rf.Seed, nil, stripped, 0, false)
+		a, b2 := ClientTrace(with.Results, nOfPayload), ClientTrace(without.Results, nOfPayload)
+		st.Count("metamorphic_corpus_pairs", 1)
+		for i := 0; i < len(a) || i < len(b2); i++ {
+			if i >= len(a) || i >= len(b2) || a[i] != b2[i] {
+				x, y := "<end>", "<end>"
+				if i < len(a) {
+					x = a[i]
+				}
+				if i < len(b2) {
+					y = b2[i]
+				}
+				st.Violate(Violation{What: fmt.Sprintf("[prune-visible] corpus history %s: running the maintenance jobs changed what clients observe: step %d with jobs %q, without %q", filepath.Base(cf), i, x, y), Replay: cf, FoundInput: true, Sig: "prune-visible"})
+				return
+			}
+		}
+	}
 	for s := 0; s < pairs; s++ {
 		seed := base*7001 + int64(s)
 		p := cfg.profile
